@@ -356,6 +356,32 @@ def run(rep):
                 for ob, det in bad:
                     rep.violation(ob, (SIG_UNIFORM if _grouped_in_order(mdg) else SIG_MIXED) + ", with interfaces", inputs=inp, detail=det, confirmed=True)
 
+            # (g) more than nine exported time steps (the pvd stores the steps as text), and a single key given as a string
+            mdg = pp.MixedDimensionalGrid()
+            mdg.add_subdomains([cart1()])
+            bad = check_roundtrip(pp, mdg, tmp, "steps12", steps=tuple(range(0, 12)))
+            sw.case("twelve time steps", nontrivial=True, sample={"md_grid": "1d cart", "steps": 12})
+            for ob, det in bad:
+                rep.violation(ob, "twelve exported time steps", inputs={"md_grid": "1d cart", "steps": list(range(12))}, detail=det, confirmed=True)
+            g1 = cart1()
+            vals = np.arange(g1.num_cells, dtype=float) + 7.0
+            import pathlib
+
+            skdir = pathlib.Path(str(tmp)) / "single_key"
+            ok, err = _call(lambda: pp.Exporter(g1, "single_key", str(skdir)).write_vtu([(g1, "pressure", vals)], time_step=1))
+            g1b = cart1()
+            imp = pp.Exporter(g1b, "single_key", str(skdir))
+            files = sorted(skdir.glob("single_key_*000001.vtu"))
+            ok2, err2 = _call(lambda: imp.import_state_from_vtu(files, keys="pressure")) if ok else (False, err)
+            sw.case("single key as string", nontrivial=True, sample={"md_grid": "1d cart", "keys": "pressure"})
+            got = None
+            if ok2:
+                ok3, got = _call(lambda: pp.get_solution_values("pressure", imp._mdg.subdomain_data(g1b), time_step_index=0))
+                ok2 = ok3
+            if not ok2 or not np.array_equal(np.asarray(got), vals):
+                rep.violation("import: values restored cell by cell", "keys given as a single string", inputs={"md_grid": "1d cart", "keys": "pressure"},
+                              detail=f"restored {got if ok2 else (err2 if ok else err)} expected {vals.tolist()}", confirmed=True)
+
         with rep.sweep(
             "TimeManager time information",
             rule="seeded schedules (2-4 entries) and constant dt; 0-6 steps of increase_time() each followed by write_time_information; a "
